@@ -158,3 +158,19 @@ package scheduler
 //@   ensures a-disarmed-worker-is-always-rearmed: w != nil && disarmed(w) == 1 ==> w.cleanupKey != 0
 //@   ensures deadline-counts-from-the-end-of-the-call: w != nil && disarmed(w) == 1 ==>
 //@             armedat(&w.cleanupKey) == bq.now + bq.configuration.WorkerWithNoSynchronizationsTimeout
+
+// Abandoning one of several operations of a queued task removes the
+// invocations it leaves empty, all the way up to the first ancestor that is
+// still in use (otherwise they stay in the tree forever).
+// lastremoved(nil): the most recent removeIfEmpty call removed its invocation.
+//@ ghost map lastremoved(ref) int zero
+//@ ghost map climbing(ref) int zero
+//@ func (*invocation).removeIfEmpty
+//@   props C06
+//@   ghostset lastremoved[nil] = ite(r0, 1, 0)
+//@   ensures only-unused-non-root-invocations-are-removed: r0 ==> i.parent != nil && i.idleWorkersCount == 0
+//@   ensures unused-non-root-invocations-are-removed: !r0 ==> unchanged()
+//@ func (*operation).remove
+//@   props C06
+//@   at call removeQueuedFromInvocation#1 ghostset climbing[nil] = 1
+//@   at call delete#2 assert emptied-ancestors-are-removed-up-to-the-first-live-one: climbing(nil) == 1 ==> lastremoved(nil) == 0
